@@ -478,6 +478,7 @@ func (c *xdsClient) handleLDS(resp *discoveryv3.DiscoveryResponse) error {
 	// returned listener name is in the format of ${clusterIP}_${port}
 	// which should be converted into to the listener name, in the form of ${fqdn}_${port}, watched by the xds client.
 	// we need to filter the response.
+	verifYield(context.Background(), 5, xdsresource.ListenerType, "")
 	c.mu.RLock()
 	filteredRes := make(map[string]xdsresource.Resource)
 	for n := range c.watchedResource[xdsresource.ListenerType] {
@@ -496,6 +497,7 @@ func (c *xdsClient) handleLDS(resp *discoveryv3.DiscoveryResponse) error {
 	}
 	c.mu.RUnlock()
 	// update to cache
+	verifYield(context.Background(), 6, xdsresource.ListenerType, "")
 	c.resourceUpdater.UpdateResource(xdsresource.ListenerType, filteredRes, resp.GetVersionInfo())
 
 	if c.closedInboundInitCh.CompareAndSwap(false, true) {
@@ -514,6 +516,7 @@ func (c *xdsClient) handleRDS(resp *discoveryv3.DiscoveryResponse) error {
 	}
 
 	// filter the resources that are not in the watched list
+	verifYield(context.Background(), 5, xdsresource.RouteConfigType, "")
 	c.mu.RLock()
 	for name := range res {
 		// only accept the routeConfig that is subscribed
@@ -523,6 +526,7 @@ func (c *xdsClient) handleRDS(resp *discoveryv3.DiscoveryResponse) error {
 	}
 	c.mu.RUnlock()
 	// update to cache
+	verifYield(context.Background(), 6, xdsresource.RouteConfigType, "")
 	c.resourceUpdater.UpdateResource(xdsresource.RouteConfigType, res, resp.GetVersionInfo())
 	return nil
 }
@@ -536,6 +540,7 @@ func (c *xdsClient) handleCDS(resp *discoveryv3.DiscoveryResponse) error {
 	}
 
 	// filter the resources that are not in the watched list
+	verifYield(context.Background(), 5, xdsresource.ClusterType, "")
 	c.mu.RLock()
 	for name := range res {
 		if _, ok := c.watchedResource[xdsresource.ClusterType][name]; !ok {
@@ -544,6 +549,7 @@ func (c *xdsClient) handleCDS(resp *discoveryv3.DiscoveryResponse) error {
 	}
 	c.mu.RUnlock()
 	// update to cache
+	verifYield(context.Background(), 6, xdsresource.ClusterType, "")
 	c.resourceUpdater.UpdateResource(xdsresource.ClusterType, res, resp.GetVersionInfo())
 	return nil
 }
@@ -557,6 +563,7 @@ func (c *xdsClient) handleEDS(resp *discoveryv3.DiscoveryResponse) error {
 	}
 
 	// filter the resources that are not in the watched list
+	verifYield(context.Background(), 5, xdsresource.EndpointsType, "")
 	c.mu.RLock()
 	for name := range res {
 		if _, ok := c.watchedResource[xdsresource.EndpointsType][name]; !ok {
@@ -565,6 +572,7 @@ func (c *xdsClient) handleEDS(resp *discoveryv3.DiscoveryResponse) error {
 	}
 	c.mu.RUnlock()
 	// update to cache
+	verifYield(context.Background(), 6, xdsresource.EndpointsType, "")
 	c.resourceUpdater.UpdateResource(xdsresource.EndpointsType, res, resp.GetVersionInfo())
 	return nil
 }
